@@ -408,7 +408,8 @@ func init() {
 // 8-bit values: completeness; rejection when a sub-challenge, a response or a
 // commitment of either branch is altered, when the two sub-challenges do not
 // XOR to the challenge, and when neither statement holds (bit = 0 with post !=
-// pre, bit = 1 with a wrong product, bit = 2).
+// pre, bit = 1 with a wrong product, bit = 2, bit = 1 with a product that is
+// right only for another multiplier than the publicly committed one).
 func vpC17_O4() {
 	g := vpGroup()
 	const l = 16
@@ -425,9 +426,20 @@ func vpC17_O4() {
 		post = new(big.Int).Sub(new(big.Int).Mul(pre, mul), new(big.Int).Mul(k, mod))
 	}
 	cheat := bitv == 2
-	if bitv != 2 && vpBool("wrongPost") {
+	// substitute: with bit = 1 the prover runs the step with another multiplier mul' than the one
+	// committed to publicly, and a result that fits mul' (not mul)
+	substitute := false
+	if bitv == 1 && vpBool("substitutedMultiplier") {
+		substitute = true
+		cheat = true
+	} else if bitv != 2 && vpBool("wrongPost") {
 		post = vpAddBig(post, vpBigRange("dpost", big.NewInt(1), big.NewInt(250)))
 		cheat = true
+	}
+	mulUsed := mul
+	if substitute {
+		mulUsed = vpAddBig(mul, vpBigRange("dmul", big.NewInt(1), big.NewInt(200)))
+		post = new(big.Int).Sub(new(big.Int).Mul(pre, mulUsed), new(big.Int).Mul(k, mod))
 	}
 	var list []*big.Int
 	list, sb, cb := vpPed(g, list, "bit", big.NewInt(int64(bitv)))
@@ -437,6 +449,11 @@ func vpC17_O4() {
 	list, smod, cmod := vpPed(g, list, "mod", mod)
 	bases := zkproof.NewBaseMerge(&g, &cb, &cpre, &cpost, &cmul, &cmod)
 	secrets := zkproof.NewSecretMerge(&cb, &cpre, &cpost, &cmul, &cmod)
+	if substitute {
+		// the prover's private substitute for the public commitment to mul
+		_, _, clie := vpPed(g, nil, "mul", mulUsed)
+		secrets = zkproof.NewSecretMerge(&cb, &cpre, &cpost, &clie, &cmod)
+	}
 	es := newExpStepStructure("bit", "pre", "post", "mul", "mod", l)
 	list, ec := es.commitmentsFromSecrets(g, list, &bases, &secrets)
 	challenge := common.HashCommit(list, false)
